@@ -56,6 +56,7 @@ public:
   noexcept
   {
     auto lock = get_lock();
+    TROMPELOEIL_VERIF_ACCESS(true, this, 1);
     chain_lifetime_monitor(monitor, trompeloeil_lifetime_monitor.leak());
     trompeloeil_lifetime_monitor = monitor;
     return trompeloeil_lifetime_monitor.leak();
@@ -159,6 +160,7 @@ template <typename T>
 deathwatched<T>::~deathwatched()
 {
   auto lock = get_lock();
+  TROMPELOEIL_VERIF_ACCESS(true, this, 0);
   if (trompeloeil_lifetime_monitor)
   {
     for (auto m = trompeloeil_lifetime_monitor.leak(); m; m = m->older_monitor)
